@@ -3,7 +3,7 @@ Usage: AITB_REPO=... python3 tools/dev/unittests_c07.py [test/…Tests.cpp …] 
 import sys, os, subprocess, tempfile
 sys.path.insert(0, os.path.join(os.path.dirname(os.path.dirname(os.path.abspath(__file__)))))
 import common as C
-DEFAULT = ['test/UtilsCoreTests.cpp', 'test/Factored/UtilsTests.cpp', 'test/Factored/BayesianNetworkTests.cpp',
+DEFAULT = ['test/UtilsCoreTests.cpp', 'test/UtilsProbabilityTests.cpp', 'test/Factored/UtilsTests.cpp', 'test/Factored/BayesianNetworkTests.cpp',
            'test/Factored/MDP/CooperativeExperienceTests.cpp', 'test/Factored/MDP/CooperativeMaximumLikelihoodModelTests.cpp',
            'test/Factored/MDP/CooperativeModelTests.cpp', 'test/Factored/MDP/CooperativePrioritizedSweepingTests.cpp',
            'test/Factored/Bandit/MAUCEPolicyTests.cpp', 'test/Factored/Bandit/LLRPolicyTests.cpp',
